@@ -209,6 +209,13 @@ Theorem C05_accept_well_formed_doc_eps : forall sqrt_o eps aeps t,
 Proof. exact accept_well_formed_doc_eps. Qed.
 Print Assumptions C05_accept_well_formed_doc_eps.
 
+(* no side condition at all when every hard module has one rectangle (soft
+   modules may have any number): loaded whatever the epsilon state *)
+Theorem C05_accept_well_formed_doc_single : forall sqrt_o e t,
+  well_formed_doc t -> hard_single_rect t -> exists n, read_netlist sqrt_o e t = Ok n.
+Proof. exact accept_well_formed_doc_single. Qed.
+Print Assumptions C05_accept_well_formed_doc_single.
+
 (* a well-formed attribute mapping, whatever the order of its keys, is accepted
    by parse_yaml_module / Module.__init__ / setup, with the kind the document states *)
 Theorem C05_accept_module : forall name info,
